@@ -458,3 +458,13 @@ from sa import exits as _exits  # noqa: E402
 
 RULES.append(Rule("C09.RX", _exits.make_rule("C09", "C09.RX", _exits.SCOPES["C09"]), floor=1,
                   doc="rejection conditions: the anchored functions refuse inputs only under the conditions confirmed on the pinned tree (E16)"))
+
+from sa import exits as _exits_ms  # noqa: E402
+
+RULES.append(Rule("C09.MS", _exits_ms.make_state_rule("C09", "C09.MS", _exits_ms.SCOPES.get("C09", [])), floor=1,
+                  doc="no hidden state on the anchored path (module level, per object, memoising decorators): results do not depend on the history of the process (E17)"))
+
+from sa import exits as _exits_nw  # noqa: E402
+
+RULES.append(Rule("C09.NW", _exits_nw.make_narrowing_rule("C09", "C09.NW", _exits_nw.SCOPES.get("C09", [])), floor=1,
+                  doc="no new narrowing cast (8/16-bit element types) on the anchored path: coordinates, lengths and indices do not wrap (E18)"))
